@@ -15,6 +15,7 @@ import (
 	"strings"
 	"testing"
 
+	"github.com/canopy-network/canopy/fsm"
 	"github.com/canopy-network/canopy/lib"
 	"google.golang.org/protobuf/proto"
 	"pgregory.net/rapid"
@@ -68,6 +69,9 @@ type env struct {
 	committeeAt func(rootHeight uint64) (lib.ValidatorSet, bool)
 	cached      bool // the victim validated the valid proposal before (holds a cached block result)
 	boundary    bool // constructed stake vector (exact threshold / threshold-1 subsets exist)
+	// shift: (nested chains) the committee at the NEXT root height, reached after the certificate's root height while the
+	// victim's in-memory validator set was refreshed to it; stakes differ from e.vs
+	shift *lib.ValidatorSet
 }
 
 func pubkeysOf(vs lib.ValidatorSet, idx []int) [][]byte {
@@ -667,6 +671,41 @@ func (e *env) genLastQC(t *rapid.T) *cand {
 	return c
 }
 
+// genRootShift: a genuine aggregate at the certificate's (older) root height whose signer subset has a DIFFERENT quorum
+// verdict under the committee of the victim's current root height: "up" = below the threshold at the certificate's root
+// height, at/above it under the newer powers (must be rejected); "down" = the reverse (a genuine certificate: must commit)
+func (e *env) genRootShift(t *rapid.T, dir string) *cand {
+	idxIn := map[string]int{}
+	for i, v := range e.shift.ValidatorSet.ValidatorSet {
+		idxIn[string(v.PublicKey)] = i
+	}
+	_, thrNew, _ := nodesim.Power(*e.shift, nil)
+	thrOld := threshold(e.vs)
+	var pool []subset
+	for _, s := range allSubsets(e.vs) {
+		var ni []int
+		for _, i := range s.idx {
+			if j, ok := idxIn[string(e.vs.ValidatorSet.ValidatorSet[i].PublicKey)]; ok {
+				ni = append(ni, j)
+			}
+		}
+		_, _, pNew := nodesim.Power(*e.shift, ni)
+		okOld, okNew := s.power.Cmp(thrOld) >= 0, pNew.Cmp(thrNew) >= 0
+		if (dir == "up" && !okOld && okNew) || (dir == "down" && okOld && !okNew) {
+			pool = append(pool, s)
+		}
+	}
+	if len(pool) == 0 {
+		return nil
+	}
+	s := pool[rapid.IntRange(0, len(pool)-1).Draw(t, "shiftSubset")]
+	c := e.signed("root-shift", nil, e.vs, s.idx)
+	c.honest, c.nontrivial = true, true
+	c.classes = append(c.classes, "root-shift="+dir)
+	c.desc = fmt.Sprintf("%s: signers=%s power=%s at the certificate's root height %d (threshold %s); verdict flips under the committee of the victim's current root height", dir, idxStr(s.idx), s.power, e.rootH, thrOld)
+	return c
+}
+
 func (e *env) genCandidateOf(t *rapid.T, kind string) *cand {
 	saved := candKinds
 	candKinds = []string{kind}
@@ -819,23 +858,58 @@ func runChain(t *rapid.T, rec *ev.Rec) {
 		pKinds, bKinds = frozenKinds, frozenKinds
 	}
 	ring := nodesim.NewKeyRing(w.NVals + w.Spare)
-	mk := func(name string, key int) *nodesim.Node {
-		n, err := sim.NewNode(nodesim.NodeOpts{Name: name, Genesis: w.Genesis(0), Key: keys.BLS(key)})
+	// half of the non-constructed chains run on the NESTED chain of a two-chain setup: the certificate's root height and
+	// the victim's current root height can differ (root-chain progress with stake changes in the middle of a height)
+	nested := !boundary && rapid.Bool().Draw(t, "nested")
+	rootGen, chainGen := w.Genesis(0), w.Genesis(0)
+	var rootW *nodesim.World
+	if nested {
+		rootGen, chainGen = nodesim.TwoChainGenesis(w.ValSpecs(), w.AcctSpecs(), false, nil)
+		rootW = w.ForChain(1, 2)
+		rootW.Committees = []uint64{1, 2}
+		w = w.ForChain(2, 1)
+		pKinds, bKinds = frozenKinds, frozenKinds // staking happens on the root chain
+	}
+	mk := func(name string, key int, chain uint64, gen *fsm.GenesisState, root *nodesim.Node) *nodesim.Node {
+		n, err := sim.NewNode(nodesim.NodeOpts{Name: name, ChainID: chain, Genesis: gen, Key: keys.BLS(key), Root: root})
 		if err != nil {
 			t.Fatalf("new node: %v", err)
 		}
 		return n
 	}
-	a, b := mk("A", 0), mk("B", 1)
+	var ra *nodesim.Node
+	var rootG *nodesim.Group
+	var a, b *nodesim.Node
+	if nested {
+		ra = mk("RA", 0, 1, rootGen, nil)
+		rootG = &nodesim.Group{Sim: sim, Ring: ring, Nodes: []*nodesim.Node{ra}}
+		a, b = mk("A", 0, 2, chainGen, ra), mk("B", 1, 2, chainGen, ra)
+	} else {
+		a, b = mk("A", 0, 1, chainGen, nil), mk("B", 1, 1, chainGen, nil)
+	}
 	g := &nodesim.Group{Sim: sim, Ring: ring, Nodes: []*nodesim.Node{a, b}}
-	chainDesc := fmt.Sprintf("stakes=%v", w.Stakes)
+	chainDesc := fmt.Sprintf("stakes=%v nested=%v", w.Stakes, nested)
+	// rootStep commits one root-chain height containing the given transactions (plus the pending certificate results)
+	rootStep := func(txs ...[]byte) {
+		for _, tx := range txs {
+			_ = ra.AddTx(tx)
+		}
+		vs, err := ra.Committee(ra.Height())
+		if err != nil {
+			t.Fatalf("root committee: %v", err)
+		}
+		s, _ := pickSubset(t, vs, "above")
+		if r, err := rootG.Step(nodesim.StepOpts{Proposer: 0, Signers: s.idx}); err != nil || !r.OK() {
+			t.Fatalf("root chain step failed: %v %v", err, r.Err())
+		}
+	}
 
 	committees := map[uint64]lib.ValidatorSet{}
 	committeeAt := func(rh uint64) (lib.ValidatorSet, bool) {
 		if vs, ok := committees[rh]; ok {
 			return vs, true
 		}
-		if rh == 0 || rh > a.Height() {
+		if rh == 0 || rh > a.C.RootChainHeight() {
 			return lib.ValidatorSet{}, false
 		}
 		vs, err := a.Committee(rh)
@@ -857,7 +931,16 @@ func runChain(t *rapid.T, rec *ev.Rec) {
 	prefix := rapid.IntRange(0, 3).Draw(t, "prefix")
 	for i := 0; i < prefix; i++ {
 		addTxs(pKinds, rapid.IntRange(1, 4).Draw(t, "nTx"))
-		vs, _ := a.Committee(a.Height())
+		if nested {
+			for k := rapid.IntRange(0, 2).Draw(t, "rootSteps"); k > 0; k-- {
+				var txs [][]byte
+				for _, tx := range rootW.GenTx(t, ra.Height(), []string{"edit-stake-up", "send"}) {
+					txs = append(txs, tx.Bytes)
+				}
+				rootStep(txs...)
+			}
+		}
+		vs, _ := a.Committee(a.C.RootChainHeight())
 		s, _ := pickSubset(t, vs, "above")
 		r, err := g.Step(nodesim.StepOpts{Proposer: 0, Signers: s.idx})
 		if err != nil || !r.OK() {
@@ -867,7 +950,7 @@ func runChain(t *rapid.T, rec *ev.Rec) {
 	attackHeights := rapid.IntRange(1, 2).Draw(t, "attackHeights")
 	for ah := 0; ah < attackHeights; ah++ {
 		addTxs(bKinds, rapid.IntRange(1, 5).Draw(t, "nTx"))
-		vs0, _ := a.Committee(a.Height())
+		vs0, _ := a.Committee(a.C.RootChainHeight())
 		s0, _ := pickSubset(t, vs0, "above")
 		res, err := g.Certify(0, s0.idx, 0)
 		if err != nil || res.ProduceErr != nil {
@@ -880,6 +963,27 @@ func runChain(t *rapid.T, rec *ev.Rec) {
 		addTxs([]string{"send"}, 1)
 		if alt, e2 := a.Produce(); e2 == nil && !bytes.Equal(alt.BlockHash, e.p.BlockHash) {
 			e.alt = alt
+		}
+		// nested: the root chain moves on in the middle of this height and re-weights the committee (the strongest member
+		// multiplies its stake: the member order is kept); the victim's in-memory validator set follows, the certificates of
+		// this height still name the older root height
+		if nested && rapid.IntRange(0, 3).Draw(t, "rootShift") > 0 {
+			top := e.vs.ValidatorSet.ValidatorSet[0]
+			ki := -1
+			for i := 0; i < w.NVals+w.Spare; i++ {
+				if bytes.Equal(keys.BLS(i).PublicKey().Bytes(), top.PublicKey) {
+					ki = i
+				}
+			}
+			if ki >= 0 {
+				rootStep(rootW.EditStake(ki, top.VotingPower*uint64(rapid.IntRange(2, 6).Draw(t, "topFactor")), 10000, ra.Height()))
+				if nvs, err := a.Committee(a.C.RootChainHeight()); err == nil {
+					e.shift = &nvs
+					committees[a.C.RootChainHeight()] = nvs
+				}
+				sim.Activate(b)
+				b.RefreshConsensus() // bft NewHeight(true) on a root-chain update reloads the committee at the new root height
+			}
 		}
 		// the victim may have validated the proposal already (cached result) or not (replay path)
 		cached := rapid.Bool().Draw(t, "victimValidatedFirst")
@@ -899,6 +1003,13 @@ func runChain(t *rapid.T, rec *ev.Rec) {
 		}
 		if e.height > 1 {
 			cands = append(cands, e.genLastQC(t)) // the inner last-certificate re-check is reachable here: always try it
+		}
+		if e.shift != nil {
+			for _, dir := range []string{"up", "down", "up"} {
+				if c := e.genRootShift(t, dir); c != nil {
+					cands = append(cands, c)
+				}
+			}
 		}
 		rank := func(c *cand) int {
 			v, _ := e.expect(c, committeeAt)
